@@ -377,7 +377,11 @@ func specToGo(s string) (string, error) {
 			if err != nil {
 				return "", err
 			}
-			return fmt.Sprintf("%s(func(%s) bool { return %s })", q, binders, body), nil
+			qn := q
+			if n := len(splitTopLevel(binders, ',')); n > 1 {
+				qn = fmt.Sprintf("%s%d", q, n)
+			}
+			return fmt.Sprintf("%s(func(%s) bool { return %s })", qn, binders, body), nil
 		}
 	}
 	// top-level ==>
@@ -418,6 +422,9 @@ func specToGo(s string) (string, error) {
 			}
 			inner := s[i+1 : j]
 			parts := splitTopLevel(inner, ',')
+			if ti := strings.TrimSpace(inner); strings.HasPrefix(ti, "forall ") || strings.HasPrefix(ti, "exists ") {
+				parts = []string{inner}
+			}
 			out.WriteByte('(')
 			for k, p := range parts {
 				if k > 0 {
